@@ -45,7 +45,7 @@ def directed(rng: random.Random) -> dict:
     body: list = [{"k": "org", "e": E(rng.choice([0x8000, 0x018000, 0xC08000 if False else 0x028123]))}]
     kind = rng.choice(["shadow_chain", "sibling_reuse", "qualified_forward", "qualified_backward", "leak_inner", "leak_sibling", "leak_macro",
                        "leak_loop", "symbol_kinds", "named_in_named", "macro_local_vs_outer", "shadow_unsized", "block_if_label", "named_in_loop", "named_in_macro",
-                       "const_shadowed_by_later_inner", "symbol_kinds_unsized"])
+                       "const_shadowed_by_later_inner", "symbol_kinds_unsized", "parameter_names_at_call_site"])
     expect_reject = False
     nop = {"k": "ins", "m": "nop", "shape": "imp", "sz": "", "e": None}
     if kind == "shadow_chain":
@@ -102,6 +102,14 @@ def directed(rng: random.Random) -> dict:
                  {"k": "block", "b": [{"k": "sym", "n": "kk", "e": E(7)}, ref("kk"), {"k": "data", "d": "db", "es": [E("kk")]},
                                       {"k": "block", "b": [ref("kk"), {"k": "assign", "n": "kk", "e": E(9)}, ref("kk")]}, ref("kk")]},
                  ref("kk"), {"k": "data", "d": "db", "es": [E("kk"), E("ss")]}]
+    elif kind == "parameter_names_at_call_site":
+        # the call site uses names that are also parameter names of the callee (constants, loop variables, an outer macro's parameters)
+        dbp = lambda *n: {"k": "data", "d": "db", "es": [E(x) for x in n]}  # noqa: E731
+        body += [{"k": "macro", "n": "pairm", "ps": ["pa", "pb"], "b": [dbp("pa", "pb")]},
+                 {"k": "macro", "n": "wrapm", "ps": ["pb", "pa"], "b": [{"k": "call", "n": "pairm", "as": [E("pb"), E("pa")]}, {"k": "call", "n": "pairm", "as": [E("pa"), E("pb", "+", "pa")]}]},
+                 {"k": "assign", "n": "pa", "e": E(1)}, {"k": "assign", "n": "pb", "e": E(2)},
+                 {"k": "call", "n": "pairm", "as": [E("pb"), E("pa")]}, {"k": "call", "n": "wrapm", "as": [E(0x11), E(0x22)]},
+                 {"k": "for", "v": "pb", "a": E(0), "b": E(3), "body": [{"k": "call", "n": "pairm", "as": [E("pb", "+", 0x10), E("pb")]}]}]
     elif kind == "sibling_reuse":
         for i in range(rng.randint(2, 4)):
             body.append({"k": "block", "b": [dl("loop1"), lab("loop1"), nop, dl("loop1"), {"k": "block", "b": [dl("loop1")]}]})
@@ -239,6 +247,33 @@ def check_program(res: Res, p: dict, rng: random.Random) -> None:
         if sorted(r1.labels) != want and sorted(v for _, v in r1.labels) != sorted(v for _, v in r0.labels):
             res.violate("rename-changes-output", f"renaming {n} changes label values", dict(wit, twin_src=src1, renamed=n))
             return
+    # twin 1b: a macro parameter is a name local to the application: renaming it in the definition changes nothing
+    macros = [st for st, _, _ in walk(p["prog"]) if st["k"] == "macro" and st["ps"]]
+    if macros:
+        from vf.gen.twins import rename as rename_stmts
+
+        mdef = rng.choice(macros)
+        pname = rng.choice(mdef["ps"])
+        redefined = any(st["k"] in ("label", "assign", "sym") and st["n"] == pname or st["k"] == "for" and st["v"] == pname for st, _, _ in walk(mdef["b"]))
+        if not redefined:
+            new = pname + "_rp"
+
+            def swap(stmts):
+                out = []
+                for st in stmts:
+                    if st is mdef:
+                        out.append(dict(st, ps=[new if q == pname else q for q in st["ps"]], b=rename_stmts(st["b"], {pname: new})))
+                    else:
+                        from vf.gen.twins import map_children
+                        out.append(map_children(st, swap))
+                return out
+
+            r3, src3, _ = run_ir(dict(p, prog=swap(p["prog"])))
+            res.count("parameter_rename_twins")
+            if not r3.ok or [(a, bytes(b)) for a, b in r3.blocks] != [(a, bytes(b)) for a, b in r0.blocks]:
+                d = blocks_equal([(a, b) for a, b in r0.blocks], r3.blocks) if r3.ok else f"twin rejected: {r3.err_kind}: {r3.err_text[:160]}"
+                res.violate("rename-changes-output", f"renaming the parameter {pname} of macro {mdef['n']} changes the output: {d}", dict(wit, twin_src=src3, renamed=pname))
+                return
     # twin 2: unrelated definition inserted into another scope
     ins = insert_unrelated(p["prog"], rng)
     if ins is not None:
